@@ -25,11 +25,11 @@ def run(rep: Report, repo: Repo):
     rep.assumptions = ['NOT DECIDED: the full allocator clause (no overlap / coalescing / tiling / true high-water mark under every alloc-free history) - '
                        'only the two path invariants above are decided; a bug that keeps them (e.g. wrong first-fit choice, missed coalescing) is not detected',
                        'capacities positive multiples of 4 as documented']
-    smod = map_rules(rep, repo)
+    smod = map_rules(rep, repo, with_heap=False)
     heap_effects(rep, smod)
 
 
-def map_rules(rep, repo):
+def map_rules(rep, repo, with_heap=True):
     """Pins / alloc / alias / size rules of the memory map (also included by C01, C02, C03, C05, C06 whose results
     depend on live signals not being overwritten)."""
     smod, init = simops.simops_init(repo)
@@ -181,6 +181,8 @@ def map_rules(rep, repo):
     if not ok:
         rep.violate('C08.size', smod, init, cl[0] if cl else 'self.c_len', 'c_len must be h.max_size read after the last allocation (signal memory is sized by it)', node=init)
     rep.floor('alloc sites in SimOps.__init__', len(allocs), 5)
+    if with_heap:      # the allocator the map is built with (a chunk handed out twice makes two live signals share memory)
+        heap_effects(rep, smod)
     return smod
 
 
